@@ -15,9 +15,10 @@
 (*      sequence of rows [p |-> pivot word, r |-> sentence] such that row  *)
 (*      j has coefficient 0 at the pivots of all rows before it.           *)
 (*      Reduce(v, rows) eliminates the pivots in order; v is in the span   *)
-(*      iff the remainder is the zero sentence.  Remainders are replaced   *)
-(*      by their primitive integer multiple (SPrim) to keep numbers small  *)
-(*      (a scalar multiple has the same span membership).                  *)
+(*      iff the remainder is the zero sentence.  Vectors are replaced by   *)
+(*      their primitive integer multiple (SPrim) to keep numbers small (a  *)
+(*      scalar multiple has the same span membership); products are        *)
+(*      guarded against the 32-bit bound of TLC (marker OVF).              *)
 (*  involutions: every documented Cartan involution theta maps a Pauli     *)
 (*      word to +- itself; ThetaSign gives the sign on the algebra element *)
 (*      i*P, derived from the documented definitions (x -> x^*, Q x Q,     *)
@@ -62,19 +63,36 @@ TrProd(a, b) == LET ws == PSetToSeq((DOMAIN a) \cap (DOMAIN b))
 Orthogonal(es) == \A x, y \in DOMAIN es : x < y => GdIsZero(TrProd(es[x], es[y]))
 
 \* ----------------------------------------------------------------- echelon
-ReduceBy(v, row) == IF row.p \in DOMAIN v THEN SPrim(SSub(SScale(row.r[row.p], v), SScale(v[row.p], row.r))) ELSE v
+\* All vectors handled by the elimination are PRIMITIVE INTEGER vectors (SPrim).  TLC integers are 32 bit and an
+\* overflow aborts the run, so every multiplication is guarded: when a product could exceed LIM the result is the
+\* marker OVF (a value no sentence can have: its only key is the empty word) and the caller reports
+\* "skip-arithmetic-bound" instead of a verdict.
+OVF == [w \in {<<>>} |-> <<0, 0, 0>>]
+SIsOvf(s) == <<>> \in DOMAIN s
+LIM == 536870912
+SMaxAbs(s) == IF DOMAIN s = {} THEN 0 ELSE LET S == {LAbs(s[w][1]) : w \in DOMAIN s} IN CHOOSE m \in S : \A x \in S : x <= m
+ReduceBy(v, row) == IF SIsOvf(v) \/ row.p \notin DOMAIN v THEN v ELSE
+   Bind2(row.r[row.p][1], v[row.p][1], LAMBDA a, b :
+      IF SMaxAbs(v) > LIM \div LAbs(a) \/ SMaxAbs(row.r) > LIM \div LAbs(b) THEN OVF
+      ELSE SPrim(SSub(SScale(GdInt(a), v), SScale(GdInt(b), row.r))))
 RECURSIVE ReduceFrom(_, _, _)
-ReduceFrom(v, rows, j) == IF j > Len(rows) \/ DOMAIN v = {} THEN v
+ReduceFrom(v, rows, j) == IF j > Len(rows) \/ DOMAIN v = {} \/ SIsOvf(v) THEN v
                           ELSE Bind(ReduceBy(v, rows[j]), LAMBDA u : ReduceFrom(u, rows, j + 1))
-Reduce(vv, rows) == Bind(vv, LAMBDA v : ReduceFrom(v, rows, 1))
-InSpan(v, rows) == SIsZero(Reduce(v, rows))
+\* remainder of vv after eliminating the pivots of rows in order: zero sentence <=> vv in span(rows); OVF = undecided
+Reduce(vv, rows) == Bind(SPrim(vv), LAMBDA v : ReduceFrom(v, rows, 1))
+InSpan(v, rows) == SIsZero(Reduce(v, rows))                 \* use only where OVF has been excluded
+\* "ovf" | "zero" (all remainders zero) | "nonzero"
+Outcome(S) == IF \E u \in S : SIsOvf(u) THEN "ovf" ELSE IF \A u \in S : SIsZero(u) THEN "zero" ELSE "nonzero"
 MkRow(u) == [p |-> CHOOSE w \in DOMAIN u : \A x \in DOMAIN u : PWordIdx(w) <= PWordIdx(x), r |-> u]
-\* insert v: the new echelon and whether v was independent
-Insert(rows, vv) == Bind(Reduce(vv, rows), LAMBDA u : IF SIsZero(u) THEN [rows |-> rows, indep |-> FALSE]
-                                                        ELSE [rows |-> Append(rows, MkRow(SPrimV(u))), indep |-> TRUE])
+\* insert v: the new echelon, whether v was independent, whether the arithmetic bound was hit
+Insert(rows, vv) == Bind(Reduce(vv, rows), LAMBDA u :
+   IF SIsOvf(u) THEN [rows |-> rows, indep |-> FALSE, ovf |-> TRUE]
+   ELSE IF SIsZero(u) THEN [rows |-> rows, indep |-> FALSE, ovf |-> FALSE]
+   ELSE [rows |-> Append(rows, MkRow(u)), indep |-> TRUE, ovf |-> FALSE])
 RECURSIVE EchelonFrom(_, _, _)
-EchelonFrom(es, rows, j) == IF j > Len(es) THEN rows ELSE Bind(Insert(rows, es[j]).rows, LAMBDA r : EchelonFrom(es, r, j + 1))
+EchelonFrom(es, rows, j) == IF j > Len(es) THEN rows ELSE Bind(Insert(rows, es[j]), LAMBDA r : IF r.ovf THEN <<[p |-> <<>>, r |-> OVF]>> ELSE EchelonFrom(es, r.rows, j + 1))
 EchelonOf(es) == EchelonFrom(es, <<>>, 1)
+EchelonOvf(rows) == \E x \in DOMAIN rows : SIsOvf(rows[x].r)
 EchelonOK(rows) == \A x, y \in DOMAIN rows : x < y => rows[x].p \notin DOMAIN rows[y].r
 
 \* ------------------------------------------------------------- involutions
